@@ -6,6 +6,7 @@ open PwVerif PwVerif.Inject PwVerif.Proto
 
     cfg pinned|repaired                           how operands are printed into the label
     cfg slice strict|python                       the function of the Slice node
+    cfg hash salted|stable                        does the label depend on the interpreter session?
     chan <cid> <parent|-> <hex scoped label>      a source output channel and its owner's parent
     child <parent> <hex label>                    a name already taken among the parent's children
     inj <owner> <dunder> <operand>*               owner/operand: c<cid> | n<k> (output of injected node k)
@@ -16,9 +17,12 @@ open PwVerif PwVerif.Inject PwVerif.Proto
         -> slice <kSlice> <new> <kGetItem> <new> <children | ->
         -> slice <kSlice> 1 - - <children | ->          the new Slice node raised while auto-running
     reload                                        pickle round trip of the parents: nothing changes
+    restart                                       save, new interpreter session, load: children unchanged, but
+                                                  (cfg hash salted) `hash` is a different function from now on
+        -> restart <children of parent 0> <children of parent 1>
         -> reload <children of parent 0> <children of parent 1>
 
-`hash` is modelled by interning: the k-th distinct key hashes to "k".
+`hash` is modelled by interning: the k-th distinct key of session s hashes to "k" (session 0) or "s.k".
 -/
 
 def hexVal (c : Char) : Option Nat :=
@@ -42,12 +46,18 @@ def unhex (s : String) : Option String :=
 structure DSt where
   printer : Printer := .pinned
   sliceFn : SliceFn := .strict
+  salted : Bool := true
+  session : Nat := 0
   st : St := { children := fun _ => [], next := 0 }
   keys : List Key := []
   chans : List (Nat × Option Nat × String) := []   -- channel id ↦ (parent of its owner, scoped label)
   extra : Nat := 0
 
 def hashOf (keys : List Key) : Key → String := fun k => toString (keys.idxOf k)
+
+/-- the hash function of interpreter session `n` -/
+def hashIn (session : Nat) (keys : List Key) : Key → String := fun k =>
+  if session == 0 then hashOf keys k else toString session ++ "." ++ hashOf keys k
 
 def intern (keys : List Key) (k : Key) : List Key := if keys.contains k then keys else keys ++ [k]
 
@@ -104,6 +114,11 @@ def step (s : DSt) (ws : List String) : DSt × List String :=
   | ["cfg", "repaired"] => ({ s with printer := .repaired }, [])
   | ["cfg", "slice", "strict"] => ({ s with sliceFn := .strict }, [])
   | ["cfg", "slice", "python"] => ({ s with sliceFn := .python }, [])
+  | ["cfg", "hash", "salted"] => ({ s with salted := true }, [])
+  | ["cfg", "hash", "stable"] => ({ s with salted := false }, [])
+  | ["restart"] =>
+    let s' := if s.salted then { s with session := s.session + 1, keys := [] } else s
+    (s', [s!"restart {(s.st.children 0).length} {(s.st.children 1).length}"])
   | ["reload"] => (s, [s!"reload {(s.st.children 0).length} {(s.st.children 1).length}"])
   | ["chan", cid, par, sc] =>
     match cid.toNat?, (if par == "-" then some none else par.toNat?.map some), unhex sc with
@@ -122,7 +137,7 @@ def step (s : DSt) (ws : List String) : DSt × List String :=
     | some (oid, parent, sc), some d, some ops =>
       let e : Expr := { owner := oid, slabel := sc, cls := dispatch d, ops := ops }
       let keys := intern s.keys (key s.printer e)
-      let H := hashOf keys
+      let H := hashIn s.session keys
       let r := inject H s.printer s.st parent e
       let isNew := r.2 == s.st.next
       let s1 := { s with st := r.1, keys := keys }
@@ -135,14 +150,14 @@ def step (s : DSt) (ws : List String) : DSt × List String :=
     | some (oid, parent, sc), some a, some b, some c, some (ready, sN, bN, cN) =>
       let es : Expr := { owner := oid, slabel := sc, cls := "Slice", ops := [a, b, c] }
       let keys1 := intern s.keys (key s.printer es)
-      let slab := label (hashOf keys1) s.printer es
+      let slab := label (hashIn s.session keys1) s.printer es
       -- the id the Slice node has or will get, to name the GetItem operand before the call
       let kS : Nat := match parent with
         | none => s.st.next
         | some p => ((s.st.children p).lookup slab).getD s.st.next
       let newS := kS == s.st.next
       if newS && sliceRaises s.sliceFn ready sN bN cN then
-        let r := getitemSliceRun (hashOf keys1) s.printer s.sliceFn s.st parent oid sc a b c (· + 1000) ready sN bN cN
+        let r := getitemSliceRun (hashIn s.session keys1) s.printer s.sliceFn s.st parent oid sc a b c (· + 1000) ready sN bN cN
         let s1 := { s with st := r.1, keys := keys1 }
         let s2 := regNode s1 r.2.1 parent slab "Slice"
         (s2, [s!"slice {r.2.1} 1 {match r.2.2 with | some g => toString g | none => "-"} - {count s2 parent}"])
@@ -150,7 +165,7 @@ def step (s : DSt) (ws : List String) : DSt × List String :=
       let item := Operand.chan (kS + 1000) (slab ++ "__slice")
       let eg : Expr := { owner := oid, slabel := sc, cls := "GetItem", ops := [item] }
       let keys2 := intern keys1 (key s.printer eg)
-      let H := hashOf keys2
+      let H := hashIn s.session keys2
       let r := getitemSliceRun H s.printer s.sliceFn s.st parent oid sc a b c (· + 1000) ready sN bN cN
       match r.2.2 with
       | none => (s, ["bad-op"])   -- unreachable: the raising case was handled above
